@@ -132,6 +132,8 @@ static void apply_expect(Toks *t){
 static dvector *mk_dv(Toks *t){ int n = (int)tk(t); dvector *v; NewDVector(&v, n); for(int i = 0; i < n; i++) v->data[i] = (double)tk(t); return v; }
 static uivector *mk_uv(Toks *t){ int n = (int)tk(t); uivector *v; NewUIVector(&v, n); for(int i = 0; i < n; i++) v->data[i] = (size_t)tk(t); return v; }
 
+/* index tokens >= 1000001 are codes of far out-of-range indices (FarIdx of Containers.tla) */
+static size_t ix(long v){ switch(v){ case 1000001: return (size_t)-1; case 1000002: return (size_t)1 << 63; case 1000003: return ((size_t)1 << 63) + 1; case 1000004: return (size_t)1 << 32; default: return (size_t)v; } }
 #define IS(s) (strcmp(name, s) == 0)
 #define RETCHK(got, fmt) do{ long want_ = tk(t); if((long)(got) != want_){ snprintf(sh->what, sizeof sh->what, "%s returned " fmt " want %ld", name, (got), want_); return RC_MISMATCH; } }while(0)
 
@@ -143,11 +145,11 @@ static int exec_op(const char *name, int oor, Toks *t){
   else if(IS("DelDVector")){ int x = tk(t); DelDVector(&dv[x]); dv[x] = NULL; }
   else if(IS("DVectorResize")){ int x = tk(t), n = tk(t); DVectorResize(dv[x], n); }
   else if(IS("DVectorAppend")){ int x = tk(t); long v = tk(t); DVectorAppend(dv[x], (double)v); }
-  else if(IS("DVectorRemoveAt")){ int x = tk(t), i = tk(t); DVectorRemoveAt(dv[x], i); }
+  else if(IS("DVectorRemoveAt")){ int x = tk(t); size_t i = ix(tk(t)); DVectorRemoveAt(dv[x], i); }
   else if(IS("DVectorCopy")){ int s = tk(t), d = tk(t); DVectorCopy(dv[s], dv[d]); }
   else if(IS("DVectorExtend")){ int a = tk(t), b = tk(t), y = tk(t); dv[y] = DVectorExtend(dv[a], dv[b]); }
-  else if(IS("setDVectorValue")){ int x = tk(t), i = tk(t); long v = tk(t); setDVectorValue(dv[x], i, (double)v); }
-  else if(IS("getDVectorValue")){ int x = tk(t), i = tk(t); double r = getDVectorValue(dv[x], i); if(!oor){ long w = tk(t); if(!(r == (double)w)){ snprintf(sh->what, sizeof sh->what, "getDVectorValue returned %g want %ld", r, w); return RC_MISMATCH; } } }
+  else if(IS("setDVectorValue")){ int x = tk(t); size_t i = ix(tk(t)); long v = tk(t); setDVectorValue(dv[x], i, (double)v); }
+  else if(IS("getDVectorValue")){ int x = tk(t); size_t i = ix(tk(t)); double r = getDVectorValue(dv[x], i); if(!oor){ long w = tk(t); if(!(r == (double)w)){ snprintf(sh->what, sizeof sh->what, "getDVectorValue returned %g want %ld", r, w); return RC_MISMATCH; } } }
   else if(IS("DVectorHasValue")){ int x = tk(t); long v = tk(t); int r = DVectorHasValue(dv[x], (double)v); RETCHK(r, "%d"); }
   else if(IS("DVectorSet")){ int x = tk(t); long v = tk(t); DVectorSet(dv[x], (double)v); }
   else if(IS("DVectorSort")){ int x = tk(t); DVectorSort(dv[x]); }
@@ -157,10 +159,10 @@ static int exec_op(const char *name, int oor, Toks *t){
   else if(IS("DelUIVector")){ int x = tk(t); DelUIVector(&uv[x]); uv[x] = NULL; }
   else if(IS("UIVectorResize")){ int x = tk(t), n = tk(t); UIVectorResize(uv[x], n); }
   else if(IS("UIVectorAppend")){ int x = tk(t); long v = tk(t); UIVectorAppend(uv[x], (size_t)v); }
-  else if(IS("UIVectorRemoveAt")){ int x = tk(t), i = tk(t); UIVectorRemoveAt(uv[x], i); }
+  else if(IS("UIVectorRemoveAt")){ int x = tk(t); size_t i = ix(tk(t)); UIVectorRemoveAt(uv[x], i); }
   else if(IS("UIVectorExtend")){ int a = tk(t), b = tk(t), y = tk(t); uv[y] = UIVectorExtend(uv[a], uv[b]); }
-  else if(IS("setUIVectorValue")){ int x = tk(t), i = tk(t); long v = tk(t); setUIVectorValue(uv[x], i, (size_t)v); }
-  else if(IS("getUIVectorValue")){ int x = tk(t), i = tk(t); size_t r = getUIVectorValue(uv[x], i); if(!oor) RETCHK(r, "%zu"); }
+  else if(IS("setUIVectorValue")){ int x = tk(t); size_t i = ix(tk(t)); long v = tk(t); setUIVectorValue(uv[x], i, (size_t)v); }
+  else if(IS("getUIVectorValue")){ int x = tk(t); size_t i = ix(tk(t)); size_t r = getUIVectorValue(uv[x], i); if(!oor) RETCHK(r, "%zu"); }
   else if(IS("UIVectorHasValue")){ int x = tk(t); long v = tk(t); int r = UIVectorHasValue(uv[x], (size_t)v); RETCHK(r, "%d"); }
   else if(IS("UIVectorIndexOf")){ int x = tk(t); long v = tk(t); int r = UIVectorIndexOf(uv[x], (size_t)v); RETCHK(r, "%d"); }
   else if(IS("UIVectorSet")){ int x = tk(t); long v = tk(t); UIVectorSet(uv[x], (size_t)v); }
@@ -170,10 +172,10 @@ static int exec_op(const char *name, int oor, Toks *t){
   else if(IS("initIVector")){ int x = tk(t); initIVector(&iv[x]); }
   else if(IS("DelIVector")){ int x = tk(t); DelIVector(&iv[x]); iv[x] = NULL; }
   else if(IS("IVectorAppend")){ int x = tk(t); long v = tk(t); IVectorAppend(iv[x], (int)v); }
-  else if(IS("IVectorRemoveAt")){ int x = tk(t), i = tk(t); IVectorRemoveAt(iv[x], i); }
+  else if(IS("IVectorRemoveAt")){ int x = tk(t); size_t i = ix(tk(t)); IVectorRemoveAt(iv[x], i); }
   else if(IS("IVectorExtend")){ int a = tk(t), b = tk(t), y = tk(t); iv[y] = IVectorExtend(iv[a], iv[b]); }
-  else if(IS("setIVectorValue")){ int x = tk(t), i = tk(t); long v = tk(t); setIVectorValue(iv[x], i, (int)v); }
-  else if(IS("getIVectorValue")){ int x = tk(t), i = tk(t); int r = getIVectorValue(iv[x], i); if(!oor) RETCHK(r, "%d"); }
+  else if(IS("setIVectorValue")){ int x = tk(t); size_t i = ix(tk(t)); long v = tk(t); setIVectorValue(iv[x], i, (int)v); }
+  else if(IS("getIVectorValue")){ int x = tk(t); size_t i = ix(tk(t)); int r = getIVectorValue(iv[x], i); if(!oor) RETCHK(r, "%d"); }
   else if(IS("IVectorHasValue")){ int x = tk(t); long v = tk(t); int r = IVectorHasValue(iv[x], (int)v); RETCHK(r, "%d"); }
   else if(IS("IVectorSet")){ int x = tk(t); long v = tk(t); IVectorSet(iv[x], (int)v); }
   /* ---- strvector */
@@ -194,14 +196,14 @@ static int exec_op(const char *name, int oor, Toks *t){
   else if(IS("ResizeMatrix")){ int x = tk(t), r = tk(t), c = tk(t); ResizeMatrix(mx[x], r, c); }
   else if(IS("MatrixSet")){ int x = tk(t); long v = tk(t); MatrixSet(mx[x], (double)v); }
   else if(IS("MatrixCopy")){ int s = tk(t), d = tk(t); MatrixCopy(mx[s], &mx[d]); }
-  else if(IS("setMatrixValue")){ int x = tk(t), i = tk(t), j = tk(t); long v = tk(t); setMatrixValue(mx[x], i, j, (double)v); }
-  else if(IS("getMatrixValue")){ int x = tk(t), i = tk(t), j = tk(t); double r = getMatrixValue(mx[x], i, j);
+  else if(IS("setMatrixValue")){ int x = tk(t); size_t i = ix(tk(t)), j = ix(tk(t)); long v = tk(t); setMatrixValue(mx[x], i, j, (double)v); }
+  else if(IS("getMatrixValue")){ int x = tk(t); size_t i = ix(tk(t)), j = ix(tk(t)); double r = getMatrixValue(mx[x], i, j);
     if(!oor){ long w = tk(t); if(!(r == (double)w)){ snprintf(sh->what, sizeof sh->what, "getMatrixValue returned %g want %ld", r, w); return RC_MISMATCH; } }
     /* out of range: the code returns NaN after its message; the header documents no sentinel, so any returned value is accepted */ }
-  else if(IS("getMatrixRow")){ int x = tk(t), i = tk(t); dvector *r = getMatrixRow(mx[x], i);
+  else if(IS("getMatrixRow")){ int x = tk(t); size_t i = ix(tk(t)); dvector *r = getMatrixRow(mx[x], i);
     if(!oor){ int y = tk(t); dv[y] = r; if(r == NULL){ snprintf(sh->what, sizeof sh->what, "getMatrixRow returned NULL for a valid row"); return RC_MISMATCH; } }
     else if(r != NULL){ snprintf(sh->what, sizeof sh->what, "getMatrixRow out of range returned a vector instead of NULL"); return RC_MISMATCH; } }
-  else if(IS("getMatrixColumn")){ int x = tk(t), j = tk(t); dvector *r = getMatrixColumn(mx[x], j);
+  else if(IS("getMatrixColumn")){ int x = tk(t); size_t j = ix(tk(t)); dvector *r = getMatrixColumn(mx[x], j);
     if(!oor){ int y = tk(t); dv[y] = r; if(r == NULL){ snprintf(sh->what, sizeof sh->what, "getMatrixColumn returned NULL for a valid column"); return RC_MISMATCH; } }
     else if(r != NULL){ snprintf(sh->what, sizeof sh->what, "getMatrixColumn out of range returned a vector instead of NULL"); return RC_MISMATCH; } }
   else if(IS("MatrixAppendRow")){ int x = tk(t); dvector *v = mk_dv(t); MatrixAppendRow(mx[x], v); DelDVector(&v); }
@@ -216,8 +218,8 @@ static int exec_op(const char *name, int oor, Toks *t){
   else if(IS("NewTensorMatrix")){ int x = tk(t), k = tk(t), r = tk(t), c = tk(t); NewTensorMatrix(tn[x], k, r, c); }
   else if(IS("AddTensorMatrix")){ int x = tk(t), r = tk(t), c = tk(t); AddTensorMatrix(tn[x], r, c); }
   else if(IS("DelTensor")){ int x = tk(t); DelTensor(&tn[x]); tn[x] = NULL; }
-  else if(IS("setTensorValue")){ int x = tk(t), k = tk(t), i = tk(t), j = tk(t); long v = tk(t); setTensorValue(tn[x], k, i, j, (double)v); }
-  else if(IS("getTensorValue")){ int x = tk(t), k = tk(t), i = tk(t), j = tk(t); double r = getTensorValue(tn[x], k, i, j);
+  else if(IS("setTensorValue")){ int x = tk(t); size_t k = ix(tk(t)), i = ix(tk(t)), j = ix(tk(t)); long v = tk(t); setTensorValue(tn[x], k, i, j, (double)v); }
+  else if(IS("getTensorValue")){ int x = tk(t); size_t k = ix(tk(t)), i = ix(tk(t)), j = ix(tk(t)); double r = getTensorValue(tn[x], k, i, j);
     if(!oor){ long w = tk(t); if(!(r == (double)w)){ snprintf(sh->what, sizeof sh->what, "getTensorValue returned %g want %ld", r, w); return RC_MISMATCH; } }
     /* out of range: NaN today, any value accepted (see getMatrixValue) */ }
   else if(IS("TensorAppendMatrix")){ int x = tk(t), r = tk(t), c = tk(t); matrix *m; NewMatrix(&m, r, c); for(int i = 0; i < r; i++) for(int j = 0; j < c; j++) m->data[i][j] = (double)tk(t); TensorAppendMatrix(tn[x], m); DelMatrix(&m); }
@@ -227,6 +229,8 @@ static int exec_op(const char *name, int oor, Toks *t){
   /* ---- dvectorlist */
   else if(IS("initDVectorList")){ int x = tk(t); initDVectorList(&dl[x]); }
   else if(IS("NewDVectorList")){ int x = tk(t), n = tk(t); NewDVectorList(&dl[x], n); }
+  else if(IS("NewDVectorListFilled")){ int x = tk(t), n = tk(t); NewDVectorList(&dl[x], n);
+    for(int q = 0; q < n; q++){ int len = tk(t); NewDVector(&dl[x]->d[q], len); for(int i = 0; i < len; i++) dl[x]->d[q]->data[i] = (double)tk(t); } }
   else if(IS("DVectorListAppend")){ int x = tk(t); dvector *v = mk_dv(t); DVectorListAppend(dl[x], v); DelDVector(&v); }
   else if(IS("DelDVectorList")){ int x = tk(t); DelDVectorList(&dl[x]); dl[x] = NULL; }
   else { snprintf(sh->what, sizeof sh->what, "script: unknown operation %s", name); _exit(RC_SCRIPT); }
